@@ -347,6 +347,13 @@ impl DistinguishedName {
 		}
 		self.entries.insert(ty, s.into());
 	}
+	/// Returns an error if an attribute type can't be encoded
+	fn validate(&self) -> Result<(), Error> {
+		self.order.iter().try_for_each(|ty| match ty {
+			DnType::CustomDnType(oid) => oid::ensure_encodable(oid),
+			_ => Ok(()),
+		})
+	}
 	/// Iterate over the entries
 	pub fn iter(&self) -> DistinguishedNameIterator<'_> {
 		DistinguishedNameIterator {
